@@ -168,8 +168,9 @@ def generate(repo):
             out.append('Definition leaf_bounded : bool := %s.\n' % ('true' if bounded else 'false'))
             out.append('Definition leaf_scan_follows_order : bool := %s.\n' % (
                 'true' if re.search(r'order\s*\.\s*is_descending\(\)', call) else 'false'))
+            uv = re.findall(r'let\s+mut\s+(\w+)\s*:\s*UniqueVec<DocumentId>', fw[:m.start()][-1500:])
             out.append('Definition leaf_dedups : bool := %s.\n' % (
-                'true' if re.search(r'UniqueVec<DocumentId>', fw[:m.start()][-900:]) and re.search(r'rt\s*\.\s*push\(', call) else 'false'))
+                'true' if uv and re.search(r'\b%s\s*\.\s*push\(' % re.escape(uv[-1]), call) else 'false'))
         # _id is dispatched before the B-tree registry
         idm = re.search(r'if\s+index_name\s*==\s*Schema::ID_KEY', fw)
         out.append('Definition id_key_dispatched_first : bool := %s.\n' % ('true' if idm and (not m or idm.start() < m.start()) else 'false'))
